@@ -410,9 +410,8 @@ def cmp_view(name, a, b):
     return None
 
 
-def fresh_check_geom(o, k_eff, label):
-    """compare every view of o (read in place) with a freshly built object; returns message or None"""
-    ob = observe_geom(o)
+def fresh_check_geom(ob, k_eff, label):
+    """compare every view of an object (observation ob, read in place) with a freshly built object; message or None"""
     df = ob["def"]
     full = ob["with_eval"]
     try:
@@ -449,9 +448,8 @@ def fresh_check_geom(o, k_eff, label):
     return None
 
 
-def fresh_check_cont(w, j, label):
+def fresh_check_cont(w, j, ob, label):
     c = w.conts[j]
-    ob = observe_cont(w, j)
     try:
         fc = type(c)()
         for i in w.celems[j]:
@@ -542,60 +540,81 @@ def replay(ops, upto):
     return w
 
 
-def oracle_prefix(ops, k, results=None):
-    """fresh-object comparison of every object after ops[:k]; returns (message, known_class)"""
+def check_prefix(ops, k, results, prev_gobs):
+    """ONE replay of ops[:k]; observes every geometry and container once and evaluates the property on them:
+    sharing between geometries, copy equals source, fresh-object comparison of every view, independence of the other
+    geometries.  Returns (message or None, known_class, geometry observations, container observations)"""
     w = replay(ops, k)
-    # sharing between geometries (deep copies must be independent)
+    last = ops[k - 1]
+    msg, known = None, False
+    # sharing between geometries (deep copies must be independent): before any view is read
     rs = [reachable(g) for g in w.geoms]
     for a in range(len(rs)):
         for b in range(a + 1, len(rs)):
             common = [x for x in rs[a] if x in rs[b]]
-            if common:
-                what = type(rs[a][common[0]]).__name__
-                return "independence: geometries %d and %d share a mutable %s object after step %d" % (a, b, what, k), False
-    last = ops[k - 1]
-    if last[0] == "copy" and "ok" in call(lambda: w.geoms[last[1]]):
+            if common and not msg:
+                msg = "independence: geometries %d and %d share a mutable %s object after step %d" % (a, b, type(rs[a][common[0]]).__name__, k)
+    meta_bad = None
+    if last[0] == "copy" and last[1] < len(w.geoms):
         src, cp = w.geoms[last[1]], w.geoms[-1]
         if (cp.id, cp.name, cp.opt, cp.pdimension, cp.rational) != (src.id, src.name, src.opt, src.pdimension, src.rational):
-            return "deepcopy: id / name / opt / kind of the copy of geometry %d differ from the source after step %d" % (last[1], k), False
-        a, b = observe_geom(src, tess2=False), observe_geom(cp, tess2=False)
+            meta_bad = "deepcopy: id / name / opt / kind of the copy of geometry %d differ from the source after step %d" % (last[1], k)
+    gobs = [observe_geom(g) for g in w.geoms]
+    cobs = [observe_cont(w, j) if all_consistent(w, j) else None for j in range(len(w.conts))]
+    if not msg and meta_bad:
+        msg = meta_bad
+    if not msg and last[0] == "copy" and last[1] < len(gobs):
+        a, b = gobs[last[1]], gobs[-1]
         for key in ("def", "cpts", "wts", "bbox", "eval", "tess"):
             if a.get(key) != b.get(key):
-                return "deepcopy: the copy of geometry %d made in step %d differs from its source in %s: %s vs %s" % (
-                    last[1], k, key, str(b.get(key))[:200], str(a.get(key))[:200]), False
-    if last[0] == "ccopy":
-        a, b = observe_cont(w, last[1]), observe_cont(w, len(w.conts) - 1)
+                msg = "deepcopy: the copy of geometry %d made in step %d differs from its source in %s: %s vs %s" % (
+                    last[1], k, key, str(b.get(key))[:200], str(a.get(key))[:200])
+                break
+    if not msg and last[0] == "ccopy" and cobs[last[1]] is not None and cobs[-1] is not None:
+        a, b = cobs[last[1]], cobs[-1]
         for key in ("delta", "eval", "bbox", "tess"):
-            if a.get(key) != b.get(key) and all_consistent(w, last[1]):
-                return "deepcopy: the copy of container %d made in step %d differs from its source in %s" % (last[1], k, key), False
-    for i, g in enumerate(w.geoms):
-        m = fresh_check_geom(g, k_eff_of(ops, k, i, results), "step %d geometry %d:" % (k, i))
-        if m:
-            return m, False
-    for j in range(len(w.conts)):
-        if not all_consistent(w, j):
-            continue
-        m = fresh_check_cont(w, j, "step %d container %d:" % (k, j))
-        if m:
-            return m, known_alias_class(ops, k, w.celems[j], j)
-    return None, False
+            if a.get(key) != b.get(key):
+                msg = "deepcopy: the copy of container %d made in step %d differs from its source in %s" % (last[1], k, key)
+                break
+    if not msg:
+        for i, ob in enumerate(gobs):
+            msg = fresh_check_geom(ob, k_eff_of(ops, k, i, results), "step %d geometry %d:" % (k, i))
+            if msg:
+                break
+    if not msg and last[0] == "g" and prev_gobs is not None:
+        for i in range(min(len(prev_gobs), len(gobs))):
+            if i == last[1]:
+                continue
+            for key in ("def", "cpts", "wts", "bbox", "eval", "tess"):
+                if key in prev_gobs[i] and prev_gobs[i].get(key) != gobs[i].get(key):
+                    msg = "independence: step %d edits geometry %d but %s of geometry %d changed" % (k, last[1], key, i)
+                    break
+            if msg:
+                break
+    if not msg:
+        for j, ob in enumerate(cobs):
+            if ob is None:
+                continue
+            msg = fresh_check_cont(w, j, ob, "step %d container %d:" % (k, j))
+            if msg:
+                known = known_alias_class(ops, k, w.celems[j], j)
+                break
+    return msg, known, gobs, cobs, w
 
 
-def independence_check(ops, k):
-    """the last op ops[k-1] targets one object: no other geometry's definition or views may change"""
-    op = ops[k - 1]
-    if op[0] not in ("g",):
-        return None
-    w0 = replay(ops, k - 1)
-    w1 = replay(ops, k)
-    for i in range(len(w0.geoms)):
-        if i == op[1]:
-            continue
-        a, b = observe_geom(w0.geoms[i]), observe_geom(w1.geoms[i])
-        for key in ("def", "cpts", "wts", "bbox", "eval", "tess"):
-            if key in a and a.get(key) != b.get(key):
-                return "independence: step %d edits geometry %d but %s of geometry %d changed" % (k, op[1], key, i)
-    return None
+def check_history(ops, results, stop_at_first=True):
+    """property check of every prefix; returns list of [k, message, known] and per-prefix observations"""
+    msgs, per = [], []
+    prev = None
+    for k in range(1, len(ops) + 1):
+        m, known, gobs, cobs, w = check_prefix(ops, k, results, prev)
+        per.append((gobs, cobs))
+        prev = gobs
+        if m:
+            msgs.append([k, m, bool(known)])
+            if not known and stop_at_first:
+                break
+    return msgs, per
 
 
 def shrink(ops, failing):
@@ -621,16 +640,10 @@ def shrink(ops, failing):
 
 def history_fails(ops):
     try:
-        results = run_results(ops)
-        for k in range(1, len(ops) + 1):
-            m, known = oracle_prefix(ops, k, results)
-            if m and not known:
-                return True
-            if independence_check(ops, k):
-                return True
+        msgs, _ = check_history(ops, run_results(ops))
+        return any(not x[2] for x in msgs)
     except Exception:
         return False
-    return False
 
 
 # ------------------------------------------------------------------ rendering for the Coq model
@@ -928,7 +941,9 @@ class Hist(Family):
     timeout = 120
 
     def _len(self, rng, n_total):
-        return rng.randint(5, 12) if n_total <= 100 else rng.randint(8, 40)
+        if n_total <= 100:
+            return rng.randint(5, 12)
+        return rng.randint(25, 40) if rng.random() < 0.2 else rng.randint(8, 24)
 
     def gen(self, rng, n):
         out = []
@@ -1045,27 +1060,17 @@ class Hist(Family):
                 ids = [x for g in w.geoms for x in slot_ids(g)]
                 steps[-1]["alldistinct"] = len(set(ids)) == len(ids)
             n = len(ops)
-            oracle_msgs = []
-            for k in range(1, n + 1):
-                wk = replay(ops, k)
+            oracle_msgs, per = check_history(ops, results)
+            for k, (gobs, cobs) in enumerate(per, start=1):
                 st = steps[k - 1]
-                gs = list(range(len(wk.geoms))) if k == n else st["fg"]
-                cs = list(range(len(wk.conts))) if k == n else st["fc"]
-                st["gobs"] = [[i, observe_geom(wk.geoms[i])] for i in gs if i < len(wk.geoms)]
-                st["cobs"] = [[j, observe_cont(wk, j)] for j in cs if j < len(wk.conts) and all_consistent(wk, j)]
-                m, known = oracle_prefix(ops, k, results)
-                if not m:
-                    m, known = independence_check(ops, k), False
-                if m:
-                    oracle_msgs.append([k, m, bool(known)])
-                    if not known:
-                        break
-            res = {"steps": steps, "oracle": oracle_msgs}
+                gs = list(range(len(gobs))) if k == n else st["fg"]
+                cs = list(range(len(cobs))) if k == n else st["fc"]
+                st["gobs"] = [[i, gobs[i]] for i in gs if i < len(gobs)]
+                st["cobs"] = [[j, cobs[j]] for j in cs if j < len(cobs) and cobs[j] is not None]
+            res = {"steps": steps[:len(per)], "oracle": oracle_msgs}
             bad = [x for x in oracle_msgs if not x[2]]
             if bad:
-                res["steps"] = steps[:bad[0][0]]
-                small = shrink(ops[:bad[0][0]], history_fails)
-                res["shrunk"] = small
+                res["shrunk"] = shrink(ops[:bad[0][0]], history_fails)
             return res
         return call(quiet, run)
 
